@@ -60,6 +60,11 @@ def gen(rng, tier):
         else:
             recs = [(c, rng.randint(0, 40), 0, rng.choice([1, 2, -1, 3])) for _ in range(N)]
             recs = [(c, s, s + rng.randint(1, 30), v) for (c, s, _e, v) in recs]
+        if k % 2 == 1:
+            # the right-most stretch of the run sums to ZERO (covered, level 0: it must still be reported), once through
+            # cancelling values and once through zero-valued records only
+            e0 = max(r[2] for r in recs)
+            recs += [(c, e0 - 3, e0 + 5, 5), (c, e0 - 3, e0 + 5, -5)] if k % 4 == 1 else [(c, e0 - 1, e0 + 4, 0)]
         recs.sort(key=lambda r: (r[0], r[1], r[2]))
         end = max(r[2] for r in recs)
         level = sum(r[3] for r in recs if r[1] <= end - 1 < r[2])
